@@ -46,6 +46,8 @@ func (s *scriptedReader) Read(p []byte) (int, error) {
 		return copy(p, s.data), errScripted
 	case 3:
 		return 0, io.EOF
+	case 4:
+		return 0, nil // an empty datagram (what net.UDPConn.Read reports for one): no bytes, no error
 	default:
 		return copy(p, s.data), nil
 	}
@@ -65,6 +67,13 @@ func usedMessage(r *gen.Rand) *stun.Message {
 	if r.Bool() {
 		return new(stun.Message)
 	}
+	if r.Chance(1, 12) {
+		// a receiver with a long past: it once held a 16000-attribute, 64 KB message (prepared outside every measured
+		// window). What a later, small input costs and where its values point does not depend on that.
+		if v := c01Veteran(); v != nil {
+			return v
+		}
+	}
 	m := new(stun.Message)
 	prev := stun.MustBuild(stun.BindingSuccess, stun.TransactionID, stun.NewSoftware("previous content"),
 		stun.NewUsername("previous-user"), stun.RawAttribute{Type: 0x7f7f, Value: r.Bytes(1 + r.Intn(40))})
@@ -73,6 +82,41 @@ func usedMessage(r *gen.Rand) *stun.Message {
 	}
 
 	return m
+}
+
+var (
+	c01Veterans   []*stun.Message //nolint:gochecknoglobals
+	c01VeteranMu  sync.Mutex      //nolint:gochecknoglobals
+	c01VeteranIdx int             //nolint:gochecknoglobals
+)
+
+// c01PrepareVeterans builds the pool of veteran receivers (called once per process, before the sections).
+func c01PrepareVeterans() {
+	big := &stun.Message{}
+	big.WriteHeader()
+	for k := 0; k < 16000; k++ {
+		big.Add(stun.AttrType(0x7a00+k%7), nil) // 16000 value-less attributes: 64000 bytes, within the 16-bit length
+	}
+	for k := 0; k < 24; k++ {
+		m := new(stun.Message)
+		if err := stun.Decode(big.Raw, m); err != nil {
+			fatalHarness("veteran: " + err.Error())
+		}
+		c01Veterans = append(c01Veterans, m)
+	}
+}
+
+// c01Veteran hands out each veteran in turn (a veteran that has since decoded small inputs is still a veteran: whatever
+// the library keeps or gives back, the cost of the next small input stays bounded by that input).
+func c01Veteran() *stun.Message {
+	c01VeteranMu.Lock()
+	defer c01VeteranMu.Unlock()
+	if len(c01Veterans) == 0 {
+		return nil
+	}
+	c01VeteranIdx++
+
+	return c01Veterans[c01VeteranIdx%len(c01Veterans)]
 }
 
 func c01Entries() []c01Entry {
@@ -199,7 +243,7 @@ func c01Entries() []c01Entry {
 			m.Raw = make([]byte, r.Intn(capacity+1), capacity)
 			rd := &scriptedReader{data: in, mode: 0}
 			if r.Chance(1, 5) {
-				rd.mode = 1 + r.Intn(3)
+				rd.mode = 1 + r.Intn(4)
 			}
 			// the datagram after this one: the rest of this very message (as if a stream had split it) or another message
 			if len(in) > 24 && r.Bool() {
@@ -218,6 +262,8 @@ func c01Entries() []c01Entry {
 				seen = seen[:capacity]
 			}
 			switch rd.mode {
+			case 4:
+				seen = seen[:0] // nothing was read: nothing can have been decoded
 			case 1:
 				if len(seen) > 19 {
 					seen = seen[:19]
@@ -246,6 +292,7 @@ var (
 
 func c01(c *core.Ctx) {
 	selfCheckOracles()
+	c01PrepareVeterans()
 	entries := c01Entries()
 	n := c.N(60000, 3000000)
 	if c.Config != "rel" {
